@@ -2,7 +2,7 @@
   C02: a small concrete scenario used by the non-vacuity examples of Props/C02.
   Peer 1 owns state "a"; peer 2 has an accepted, still unanswered `set` (id 5) routed to peer 1.
 -/
-import Cjet.Lemmas.DaemonC02Final
+import Cjet.Lemmas.DaemonC02Ledger
 
 namespace Cjet.Daemon.C02.Ex
 
@@ -45,17 +45,8 @@ theorem respToOther_exists {c : Nat} {obs : List Obs} (h : respToOther c obs = t
     exact ⟨d, j, b, ho, hf.2, hf.1⟩
   | _ => simp at hf
 
-/-- decidable form of `Answerable` -/
-def answerableB (req : Json) : Bool :=
-  match req.getItem (k "id") with
-  | some id => idOk id
-  | none => false
-
-theorem answerable_of_bool {req : Json} (h : answerableB req = true) : Answerable req := by
-  unfold answerableB at h
-  split at h
-  · rename_i id hid; exact ⟨id, hid, h⟩
-  · cases h
+theorem answerable_of_bool {req : Json} (h : answerableB req = true) : Answerable req :=
+  answerableB_iff.1 h
 
 deriving instance DecidableEq for Oracle
 
